@@ -348,8 +348,14 @@ impl Tracer {
                 });
                 *this = Self::Tuple(tracer);
             }
-            // TODO: check fields are equal
-            Self::Tuple(_tracer) => {}
+            Self::Tuple(tracer) => {
+                // tuples of different lengths at one position: the elements that
+                // the shorter tuples do not have are missing values
+                let seen = tracer.field_tracers.len();
+                for idx in seen.min(num_fields)..seen.max(num_fields) {
+                    tracer.field_tracer(idx).mark_nullable();
+                }
+            }
             _ => fail!(
                 "Mismatched types, previous {:?}, current struct",
                 self.get_type()
